@@ -75,12 +75,15 @@ Verdict(r) ==
              V(k) == Ventry(j, k)
          IN  {<<"entry", k, Me[k], V(k)>> : k \in BadKeys(Me, V, RefBefore)}
              \cup {<<"entry", k, Vbefore(k), V(k)>> : k \in DKeys(r.ch[j].d_entry) \ MK}
+      (* keys whose entry value already deviates are reported there; what the *)
+      (* child's own steps make of them is not judged                         *)
       EndBad(j) ==
          LET Oe == [k \in MK |-> Ventry(j, k)]
              Mend == ApplySeq(Oe, sc.ch[j], "c" \o ToString(j))
              V(k) == Vend(j, k)
+             tainted == {t[2] : t \in EntryBad(j)}
          IN  {<<"end", k, Mend[k], V(k)>> :
-                 k \in BadKeys(Mend, V, RefBefore \cup {Oe[k] : k \in FdKeys})}
+                 k \in BadKeys(Mend, V, RefBefore \cup {Oe[k] : k \in FdKeys}) \ tainted}
       Ma == ApplySeq(Ob, sc.post, "post")
       extra == UNION {ExtraFootprint(sc.post[i]) : i \in 1..Len(sc.post)}
       leak == {<<"leak", k, Ma[k], Vafter(k)>> : k \in BadKeys(Ma, Vafter, RefBefore)}
